@@ -237,14 +237,75 @@ Ltac evt :=
   first
   [ apply evtab_same; reflexivity
   | match goal with
-    | |- evtab _ _ None ?s (fut_cancel ?x _ _) => eapply evtab_trans_l; [evt|apply evtab_cancel]
-    | |- evtab _ _ None ?s (store_clear_f ?x) => eapply evtab_trans_l; [evt|apply evtab_clear]
-    | |- evtab _ _ None ?s (store_put_f ?x _ _) => eapply evtab_trans_l; [evt|apply evtab_put]
+    | |- evtab _ _ None ?s (fut_cancel ?x _ _) => apply (evtab_trans_l _ _ _ s x); [evt|apply evtab_cancel]
+    | |- evtab _ _ None ?s (store_clear_f ?x) => apply (evtab_trans_l _ _ _ s x); [evt|apply evtab_clear]
+    | |- evtab _ _ None ?s (store_put_f ?x _ _) => apply (evtab_trans_l _ _ _ s x); [evt|apply evtab_put]
     | |- evtab _ _ None ?s (?f ?x _ _ _) => apply (evtab_wrap _ _ _ s x); [reflexivity|evt]
     | |- evtab _ _ None ?s (?f ?x _ _) => apply (evtab_wrap _ _ _ s x); [reflexivity|evt]
     | |- evtab _ _ None ?s (?f ?x _) => apply (evtab_wrap _ _ _ s x); [reflexivity|evt]
     | |- evtab _ _ None ?s (?f ?x) => apply (evtab_wrap _ _ _ s x); [reflexivity|evt]
     end ].
+
+Definition log_ext {A} (l l' : list A) : Prop := l' = l \/ exists x, l' = x :: l.
+
+Lemma good_ext rx tx rx' tx' f : log_ext rx rx' -> log_ext tx tx' -> good rx tx f -> good rx' tx' f.
+Proof.
+  intros [->|(x & ->)] [->|(y & ->)] H; auto using good_rx, good_tx.
+Qed.
+
+(* the store/connfut/futures part of the invariant survives every step that completes nothing,
+   creates nothing and adds nothing to the future store *)
+Lemma hist_BCD s s' :
+  evtab (length (g_rx (g s))) (length (g_tx (g s))) None s s' ->
+  log_ext (g_rx (g s)) (g_rx (g s')) -> log_ext (g_tx (g s)) (g_tx (g s')) ->
+  (forall j c, amap_get (t_store (t s')) j = Some c -> amap_get (t_store (t s)) j = Some c) ->
+  (t_connfut (t s') = t_connfut (t s) \/ t_connfut (t s') = None) ->
+  (forall j c, amap_get (t_store (t s)) j = Some c -> exists f, fut_get s c = Some f /\ cf_id f = j /\ cf_kind f <> KConnect) ->
+  (forall c f, fut_get s c = Some f -> good (g_rx (g s)) (g_tx (g s)) f) ->
+  match t_connfut (t s) with Some c => exists f, fut_get s c = Some f /\ cf_kind f = KConnect | None => True end ->
+  (forall j c, amap_get (t_store (t s')) j = Some c -> exists f, fut_get s' c = Some f /\ cf_id f = j /\ cf_kind f <> KConnect) /\
+  (forall c f, fut_get s' c = Some f -> good (g_rx (g s')) (g_tx (g s')) f) /\
+  match t_connfut (t s') with Some c => exists f, fut_get s' c = Some f /\ cf_kind f = KConnect | None => True end.
+Proof.
+  intros EV Hrx Htx Hst Hcf B C D. split; [|split].
+  - intros j c Hj. destruct (B _ _ (Hst _ _ Hj)) as (f & Hf & Hi & Hk).
+    destruct (evtab_fwd _ _ _ _ _ _ _ EV Hf) as (f' & Hf' & M). unfold meta in M. injection M as Mi Mk _ _.
+    exists f'. split; [exact Hf'|]. split; congruence.
+  - intros c f' Hf'. eapply good_ext; [exact Hrx|exact Htx|].
+    eapply (evtab_good _ _ _ _ _ _ _ EV eq_refl eq_refl C); exact Hf'.
+  - destruct Hcf as [->| ->]; [|exact I]. destruct (t_connfut (t s)) as [c|]; [|exact I].
+    destruct D as (f & Hf & Hk). destruct (evtab_fwd _ _ _ _ _ _ _ EV Hf) as (f' & Hf' & M).
+    unfold meta in M. injection M as _ Mk _ _. exists f'. split; [exact Hf'|congruence].
+Qed.
+
+Lemma qos0_clause_ext tx tx' f : (cf_txmark f <= length tx)%nat -> log_ext tx tx' -> qos0_clause tx f -> qos0_clause tx' f.
+Proof.
+  intros Hm [->|(x & ->)] H; [exact H|]. destruct H as (m & id & H & Hq). exists m, id.
+  split; [apply firstn_since_cons; assumption|exact Hq].
+Qed.
+
+Lemma api_fut_ev s s' c pc :
+  evtab (length (g_rx (g s))) (length (g_tx (g s))) None s s' ->
+  log_ext (g_tx (g s)) (g_tx (g s')) ->
+  (forall c f, fut_get s c = Some f -> good (g_rx (g s)) (g_tx (g s)) f) ->
+  api_fut s c pc -> api_fut s' c pc.
+Proof.
+  intros EV Htx C H. destruct pc; cbn [api_fut] in *; try exact I.
+  all: try (eapply evtab_none; [exact EV|reflexivity|exact H]).
+  - destruct H as (f & Hf & Hk). destruct (evtab_fwd _ _ _ _ _ _ _ EV Hf) as (f' & Hf' & M).
+    unfold meta in M. injection M as _ Mk _ _. exists f'. split; [exact Hf'|congruence].
+  - destruct H as (f & Hf & Hk). destruct (evtab_fwd _ _ _ _ _ _ _ EV Hf) as (f' & Hf' & M).
+    unfold meta in M. injection M as _ Mk _ _. exists f'. split; [exact Hf'|congruence].
+  - destruct H as (f & Hf & Hk & Hq). destruct (evtab_fwd _ _ _ _ _ _ _ EV Hf) as (f' & Hf' & M).
+    unfold meta in M. injection M as _ Mk _ Mt. exists f'. split; [exact Hf'|]. split; [congruence|].
+    destruct (C _ _ Hf) as [[_ Hm] _].
+    assert (X : qos0_clause (g_tx (g s')) f) by (eapply qos0_clause_ext; eassumption).
+    unfold qos0_clause in *. rewrite Mt. exact X.
+Qed.
+
+Lemma sub_del {A} (m : list (N * A)) k : NoDup (akeys m) ->
+  forall j c, amap_get (amap_del m k) j = Some c -> amap_get m j = Some c.
+Proof. intros Hnd j c H. rewrite aget_del in H by exact Hnd. destruct (j =? k); [discriminate H|exact H]. Qed.
 
 Lemma InvHist_step s e s' : InvWf s -> InvRx s -> InvHist s -> step s e = Some s' -> InvHist s'.
 Proof.
@@ -256,5 +317,28 @@ Proof.
   all: unfold_ctl; dgoal.
   all: try (match goal with |- InvHist ?t =>
          assert (EV : evtab (length (g_rx (g s))) (length (g_tx (g s))) None s t) by evt end).
+  (* generic leaves: store, connect future and table-wide clauses *)
+  all: try (match goal with EV : evtab _ _ _ _ _ |- InvHist ?tm =>
+         assert (BCD := hist_BCD s tm EV);
+         let X := fresh "X" in
+         assert (X : log_ext (g_rx (g s)) (g_rx (g tm))) by (simp_proj; first [left; reflexivity|right; eexists; reflexivity]);
+         specialize (BCD X); clear X;
+         assert (X : log_ext (g_tx (g s)) (g_tx (g tm))) by (simp_proj; first [left; reflexivity|right; eexists; reflexivity]);
+         specialize (BCD X); clear X;
+         assert (X : forall j c, amap_get (t_store (t tm)) j = Some c -> amap_get (t_store (t s)) j = Some c)
+           by (simp_proj; first [ intros ? ? X0; exact X0
+                                | apply sub_del; exact W4
+                                | intros ? ? X0; discriminate X0
+                                | destruct (t_protected (t s)); [intros ? ? X0; exact X0|intros ? ? X0; discriminate X0] ]);
+         specialize (BCD X); clear X;
+         assert (X : t_connfut (t tm) = t_connfut (t s) \/ t_connfut (t tm) = None)
+           by (simp_proj; first [left; reflexivity|right; reflexivity]);
+         specialize (BCD X B C D); clear X end).
+  all: try (match goal with BCD : _ /\ _ /\ _ |- InvHist ?tm =>
+         let B' := fresh "B'" in let C' := fresh "C'" in let D' := fresh "D'" in
+         destruct BCD as (B' & C' & D');
+         unfold InvHist; split; [|split; [|split; [|split; [exact B'|split; [exact C'|exact D']]]]] end).
+  (* pending calls keep distinct numbers *)
+  all: try solve [simp_proj; first [exact A1 | apply anodup_put; exact A1 | apply anodup_del; exact A1 | constructor]].
   Show.
 Admitted.
